@@ -1,4 +1,77 @@
-import ShootVerif.Spec.Rest
+import ShootVerif.Proofs.Rest
+import ShootVerif.Proofs.RestParse
+/-!
+C06 — rest: each call sends exactly the request its directive describes.
+
+Model: Model/Rest.lean (recognisers, classification, `send`); property: Spec/Rest.lean.
+-/
 namespace ShootVerif.Rest
-theorem C06_stub : tokenize "/a/{id}".toList = [.lit '/', .lit 'a', .lit '/', .ph "id".toList] := by decide
+
+/-- headline: reading back a rendered request directive. For each of the five verbs in ANY spelling
+    `vt` (upper, lower, mixed case), quoted or not, with any tail of non-word characters after `)`
+    (`;`, blanks), for every non-empty path without `"` and newline (and, when unquoted, without
+    blanks at its ends), followed by any further doc lines:
+    `parsePath` returns the verb, exactly the path, and its placeholders -/
+theorem C06_parse_roundtrip (v : Verb) (vt p tail rest : List Char) (quoted : Bool)
+    (hsp : vt.map lowerC = v.lowerChars) (hal : ∀ c ∈ vt, isAlpha c = true)
+    (htail : ∀ c ∈ tail, isWord c = false ∧ c ≠ ')' ∧ c ≠ '\n')
+    (hne : p ≠ []) (hq : noQuote p) (hnl : ∀ c ∈ p, c ≠ '\n')
+    (htrim : quoted = false → trimSpace p = p) :
+    parsePath (renderReq vt quoted p tail ++ '\n' :: rest) = .ok ⟨v, p, placeholders p⟩ := by
+  have hline : ∀ c ∈ renderReq vt quoted p tail, c ≠ '\n' := by
+    intro c hc
+    simp only [renderReq, List.mem_append, List.mem_singleton] at hc
+    rcases hc with ((((hc | hc) | hc) | hc) | hc) | hc
+    · rcases hc with hc | hc
+      · simp only [shootColon, List.mem_cons, List.not_mem_nil, or_false] at hc
+        rcases hc with h | h | h | h | h | h <;> subst h <;> decide
+      · subst hc; decide
+    · intro e; subst e
+      have := hal _ hc
+      simp [isAlpha] at this
+    · subst hc; decide
+    · cases quoted with
+      | false => exact hnl c (by simpa using hc)
+      | true =>
+        simp only [↓reduceIte, List.mem_cons, List.mem_append, List.not_mem_nil, or_false] at hc
+        rcases hc with h | h | h
+        · subst h; decide
+        · exact hnl c h
+        · subst h; decide
+    · subst hc; decide
+    · exact (htail c hc).2.2
+  unfold parsePath
+  rw [splitLines_line _ _ hline]
+  have hm : matchReqLine (renderReq vt quoted p tail)
+      = some (v, if quoted then '"' :: (p ++ ['"']) else p) :=
+    matchReqLine_render v vt _ tail hsp hal (fun c hc => ⟨(htail c hc).1, (htail c hc).2.1⟩)
+  simp only [firstSome, hm]
+  cases quoted with
+  | true =>
+    simp only [↓reduceIte, trimSpace_quoted, pathFormatOk_quoted p hne hq, trimQuotes_quoted p hne hq]
+  | false =>
+    simp only [Bool.false_eq_true, ↓reduceIte, htrim rfl, pathFormatOk_plain p hne hq, trimQuotes_plain p hq]
+
+/-- the placeholders are exactly the `{name}` tokens and cutting the path into tokens loses nothing -/
+theorem C06_tokens_lossless (p : List Char) : renderToks (tokenize p) = p := renderToks_tokenize p
+
+/-- headline: the header set of a generated method. For every verb and every interface-level header
+    list: the value under a key is the directive's (last) value for it, else the verb's default; and no
+    key occurs twice (each header is `Add`ed once) -/
+theorem C06_headers (hs : List (String × String)) (v : Verb) :
+    (∀ k, getKV (headersFor hs v) k = specHeader hs v k) ∧ (keysOf (headersFor hs v)).Nodup := by
+  constructor
+  · intro k
+    rw [headersFor, getKV_setAll, specHeader, lastOfKey]
+    cases List.find? (fun kv => decide (kv.1 = k)) hs.reverse <;> rfl
+  · apply keysOf_setAll_nodup
+    cases v <;> decide
+
+/-! non-vacuity -/
+example : parsePath ("shoot: Get(\"/users/{id}\")\nshoot: alias={userID:id}\n".toList)
+    = .ok ⟨.get, "/users/{id}".toList, ["id".toList]⟩ := by decide
+example : parsePath ("shoot: pAtCh(/a b/{x}/{y_1}) ; \n".toList)
+    = .ok ⟨.patch, "/a b/{x}/{y_1}".toList, ["x".toList, "y_1".toList]⟩ := by decide
+example : getKV (headersFor [("Accept", "text/plain"), ("X-A", "1"), ("Accept", "text/xml")] .post) "Accept" = some "text/xml" := by decide
+
 end ShootVerif.Rest
